@@ -12,7 +12,7 @@ cd "$wt" || exit 9
 git checkout -q -- . 2>/dev/null
 export PYTHONDONTWRITEBYTECODE=1
 timeout 600 /venv/bin/python -B "$sd/demo.py" >"$sd/demo_without.txt" 2>&1; rc_without=$?
-git apply "$sd/patch.diff" || { echo "{\"id\":\"$id\",\"error\":\"patch does not apply\"}" >"$sd/confirm.json"; exit 8; }
+git apply "$sd/${PATCH:-patch.diff}" || { echo "{\"id\":\"$id\",\"error\":\"patch does not apply\"}" >"$sd/confirm.json"; exit 8; }
 timeout 600 /venv/bin/python -B "$sd/demo.py" >"$sd/demo_with.txt" 2>&1; rc_with=$?
 # test_server.py binds a fixed port: run it apart, serialised by a lock, retried when another suite held the port
 timeout 1800 /venv/bin/python -m pytest -ra -q -p no:cacheprovider --timeout=900 --continue-on-collection-errors --ignore=asimap/test/test_server.py >"$sd/suite_with.txt" 2>&1
